@@ -78,7 +78,10 @@ fn run_part(part: &str, tier: &str, only: Option<&str>) -> Vec<grid::Grid> {
         #[cfg(feature = "cfg_default")]
         "c17" => c17::run(&tier),
         "c14" => c14::run(&tier, std::env::var("VERIF_SEED").ok().and_then(|s| s.parse().ok()).unwrap_or(0)),
-        _ => panic!("unknown part"),
+        _ => {
+            eprintln!("gridx: part {} does not exist in this build configuration", part);
+            std::process::exit(2)
+        }
     };
     parts
 }
